@@ -172,6 +172,21 @@ def check_instance_state(ctx: Ctx, cname: str) -> int:
                     attrs.setdefault(t[2], (m, e))
     init = ctx.program.lookup_method(cname, "__init__")
     n = 0
+    # a container written as a default argument is created once, with the function: every call and every object shares it
+    import ast as _ast
+
+    for m in cls.methods.values():
+        a_ = m.node.args
+        params = a_.posonlyargs + a_.args
+        for prm, d in list(zip(params[len(params) - len(a_.defaults):], a_.defaults)) + [(k_, d_) for k_, d_ in zip(a_.kwonlyargs, a_.kw_defaults) if d_ is not None]:
+            if isinstance(d, (_ast.List, _ast.Dict, _ast.Set)) or (isinstance(d, _ast.Call) and isinstance(d.func, _ast.Name) and d.func.id in ("list", "dict", "set", "defaultdict", "deque")):
+                changed = any(
+                    (e.kind in ("store", "del") and e.attr is None and e.base is not None and strip_ver(e.base) == ("sym", prm.arg))
+                    or (e.kind == "call" and e.recv is not None and e.name in MUTATORS and strip_ver(e.recv) == ("sym", prm.arg))
+                    for p in ctx.paths(m.qualname) for e in p.walk_events(True))
+                n += 1
+                ctx.check(not changed, m, d, f"{m.qualname}: parameter `{prm.arg}` defaults to a container", "a default container that is changed in place is shared by every call and every object of the class: default None and a fresh container inside",
+                          f"`{prm.arg}={_ast.unparse(d)}` is changed in place in {m.qualname}" if changed else "only read")
     for a, (m, e) in sorted(attrs.items()):
         n += 1
         ok = init is not None
